@@ -21,7 +21,19 @@ statuses to True, so a wrong answer there is a violation only if the configurati
 with the margin 1e-3 · scale · max(1, max‖w‖); below that it is counted as
 `ell_wrong_within_solver_tolerance_info` (split by cause).  Rectangles keep the band 1e-6 · scale; only
 when the SCS fallback was observed on that very call (CLARABEL raised SolverError) the same wide
-margin classifies a wrong answer (`rect_wrong_within_solver_tolerance_info_scs-fallback`)."""
+margin classifies a wrong answer (`rect_wrong_within_solver_tolerance_info_scs-fallback`).
+
+Two further streams:
+* `tiny-sigma` ellipsoids: the small SCALE of the region is carried by Σ itself (entries 2⁻²⁸…2⁻⁴⁰ ≈ 4e-9…1e-12,
+  correlation ±0.3…±0.95, α ≈ 1, centres a few region sizes apart).  All tolerances of this stream are
+  RELATIVE to the region size S = max αᵢ‖Lᵢ‖ (band 1e-6·S, solver tolerance 1e-3·S): an absolute band would
+  swallow the whole region.  Σ = L·Lᵀ stays exact (dyadic L scaled by 2ᵉ).
+* `hist`: the SAME two region objects are queried, one of them is mutated through a public mutator
+  (rectangles: `update` with intersect_iteratively False / True, `intersect`, assignment to `lower`/`upper`;
+  ellipsoids: `update`, assignment to `center`/`sigma`/`alpha`), then queried again, twice in a row.  Every
+  answer must be the certified verdict for the CURRENT attributes of the objects (read back from the objects
+  after the mutation and exported exactly); an answer that is wrong for the current attributes but right for
+  the previous ones is reported as `stale-region:<kind>:<mutator>`."""
 import math
 import warnings
 from fractions import Fraction
@@ -130,6 +142,8 @@ def gen(ctx):
     n_bad = ctx.n(24, 600)
     n_stat = ctx.n(16, 200)
     n_lp = ctx.n(40, 1500)
+    n_tiny = ctx.n(70, 3000)
+    n_hist = ctx.n(60, 2500)
     if ctx.worker == 0:
         yield from _fixed_cases()
     for _ in range(n_bad):
@@ -138,7 +152,13 @@ def gen(ctx):
         yield _gen_status(rng, names)
     for _ in range(n_lp):
         yield _gen_lp(rng)
-    for i in range(max(n_rect, n_ball, n_ell)):
+    for i in range(max(n_rect, n_ball, n_ell, n_tiny, n_hist)):
+        if i < n_tiny:
+            c = _gen_ell(rng, names, tiny=True)
+            if c is not None:
+                yield c
+        if i < n_hist:
+            yield _gen_hist(rng, names)
         if i < n_rect:
             yield _gen_rect(rng, names)
         if i < n_ball:
@@ -333,6 +353,8 @@ def _gen_ball(ctx, rng, names):
             rho = 0.0 if shape == "touch" else rng.choice([-1, 1]) * rng.choice(
                 [3e-6 * max(1.0, C) / D, 1e-4, 1e-3, 1e-2, 0.05, 0.1, 0.2, 0.4, 0.4])
             tot = D * (1 + rho)
+            if tot <= 0:  # D tiny against the absolute step 3e-6·max(1,C): radii would be negative
+                return None
             if shape == "radius-asym":
                 # a₁ + a₂ and 2·a₁ on different sides of D: taking obj2's radius from obj1 flips the answer
                 if rho >= 0:
@@ -367,7 +389,64 @@ def _rand_L(rng, m, e2):
             return [[x * 2.0 ** e2 for x in r] for r in L]
 
 
-def _gen_ell(rng, names):
+def _corr_L(rng, m, e2):
+    """dyadic lower-triangular factor (entries k/64 · 2^e2) whose Σ = L·Lᵀ has unit-order variances times
+    4^e2 and strong correlations: row i>0 has an off-diagonal part of relative norm ρᵢ ∈ ±[0.3, 0.95]"""
+    L = [[0.0] * m for _ in range(m)]
+    for i in range(m):
+        d = rng.randint(32, 96) / 64.0
+        if i == 0:
+            L[0][0] = d
+            continue
+        rho = rng.uniform(0.3, 0.95)
+        v = np.array([rng.gauss(0, 1) for _ in range(i)])
+        v = v / max(float(np.linalg.norm(v)), 1e-12) * rho
+        for j in range(i):
+            L[i][j] = round(64 * d * float(v[j])) / 64.0
+        L[i][i] = max(1, round(64 * d * math.sqrt(1 - rho * rho))) / 64.0
+    return [[x * 2.0 ** e2 for x in r] for r in L]
+
+
+def _gen_tiny_ell(rng, names):
+    """late-run sized ellipsoids whose small scale sits in Σ (entries 4^e2, e2 ∈ −14…−20), correlated,
+    α ≈ 1; c₂ is moved along an interior direction until the coverage margin is ±(0.03…0.5)·S"""
+    cname = rng.choice([n for n in names if len(_CONES[n][0]) <= 3])
+    W = _CONES[cname]
+    m, N = len(W[0]), len(W)
+    e2 = rng.choice([-14, -15, -16, -17, -18, -19, -20])
+    C = 2.0 ** e2
+    L1 = _corr_L(rng, m, e2)
+    L2 = _corr_L(rng, m, e2) if rng.random() < 0.7 else L1
+    a1, a2 = rng.uniform(0.7, 1.5), rng.uniform(0.7, 1.5)
+    c1 = [rng.uniform(-2, 2) * C for _ in range(m)]
+    c2 = [c1[j] + rng.uniform(-2, 2) * C for j in range(m)]
+    sk = rng.choice(["facet", "float", "zero", "zero", "vec"])
+    eps = rng.uniform(0, 0.3) * C
+    if sk == "zero":
+        slack = 0.0
+    elif sk == "float":
+        slack = eps
+    elif sk == "facet":
+        alpha = np.asarray(real_order(W).ordering_cone.alpha, dtype=float).reshape(-1)
+        slack = _flt(eps * alpha)
+    else:
+        slack = [rng.uniform(0, 1) * eps for _ in range(N)]
+    case = {"kind": "ell", "cone": cname, "W": W, "c1": _flt(c1), "L1": L1, "a1": float(a1), "c2": _flt(c2),
+            "L2": L2, "a2": float(a2), "slack": slack, "slack_kind": sk, "shape": "tiny-sigma", "band": "relative"}
+    if rng.random() < 0.8:
+        e = interior_dir(W)
+        rho = rng.choice([-1, 1]) * rng.choice([0.03, 0.06, 0.1, 0.2, 0.3, 0.5]) * C
+        for _ in range(4):
+            sol = _ell_numeric(case)
+            if sol is None:
+                break
+            case["c2"] = _flt(np.array(case["c2"]) - (sol[0] - rho) * e)
+    return case
+
+
+def _gen_ell(rng, names, tiny=False):
+    if tiny:
+        return _gen_tiny_ell(rng, names)
     cname = rng.choice([n for n in names if len(_CONES[n][0]) <= 3])
     W = _CONES[cname]
     m, N = len(W[0]), len(W)
@@ -419,6 +498,71 @@ def _gen_ell(rng, names):
                 break
             mu = sol[0]
             case["c2"] = _flt(np.array(case["c2"]) - (mu - rho) * e)
+    return case
+
+
+RECT_MUTATORS = ["assign", "intersect-disjoint", "intersect-overlap", "update-replace", "update-intersect"]
+ELL_MUTATORS = ["update", "assign", "assign-center"]
+
+
+def _gen_hist(rng, names):
+    """query → mutate one of the two region objects through a public mutator → query → mutate → query.
+    The mutated object jumps between a position from which the pair is (typically) covered and one from
+    which it is not: states s·k·S·e along an interior direction e, s = ±1."""
+    region = rng.choice(["rect", "rect", "ell"])
+    cname = rng.choice([n for n in names if len(_CONES[n][0]) <= 3])
+    W = _CONES[cname]
+    m = len(W[0])
+    C = rng.choice([2.0 ** -10, 2.0 ** -4, 1.0, 8.0])
+    e = interior_dir(W)
+    which = rng.choice([1, 2])
+    signs = [rng.choice([-1, 1])]
+    for _ in range(2):
+        signs.append(-signs[-1] if rng.random() < 0.8 else signs[-1])
+    dirn = 1.0 if which == 2 else -1.0
+    base_c = [rng.uniform(-2, 2) * C for _ in range(m)]
+    sk = rng.choice(["zero", "float", "float"])
+    slack = 0.0 if sk == "zero" else rng.uniform(0, 0.2) * C
+    case = {"kind": "hist", "region": region, "cone": cname, "W": W, "which": which, "slack": slack,
+            "slack_kind": sk, "shape": "hist", "signs": signs}
+    if region == "rect":
+        h0 = [rng.uniform(0.2, 1) * C for _ in range(m)]
+        case["fixed"] = {"l": _flt(np.array(base_c) - h0), "u": _flt(np.array(base_c) + h0)}
+        states = []
+        for sg in signs:
+            k = rng.uniform(1.5, 3.0)
+            h = np.array([rng.uniform(0.2, 1) * C for _ in range(m)])
+            c = np.array(base_c) + dirn * sg * k * C * e
+            states.append({"l": _flt(c - h), "u": _flt(c + h)})
+        muts = [rng.choice(RECT_MUTATORS) for _ in range(2)]
+        case["intersect_iteratively"] = any(mu == "update-intersect" for mu in muts)
+        if case["intersect_iteratively"]:
+            muts = [mu if mu != "update-replace" else "assign" for mu in muts]
+        # overlapping intersections only shrink: start from (and stay inside) a hull of the states involved
+        for i in (1, 0):
+            if muts[i] in ("intersect-overlap", "update-intersect"):
+                prev, nxt = states[i], states[i + 1]
+                states[i] = {"l": _flt(np.minimum(prev["l"], nxt["l"])), "u": _flt(np.maximum(prev["u"], nxt["u"]))}
+        case["states"], case["mutators"] = states, muts
+    else:
+        e2 = rng.choice([-10, -4, 0, 3])
+        C = 2.0 ** e2
+        base_c = [rng.uniform(-2, 2) * C for _ in range(m)]
+        ident = [[(2.0 ** e2 if i == j else 0.0) for j in range(m)] for i in range(m)]
+        case["slack"] = 0.0 if sk == "zero" else rng.uniform(0, 0.2) * C
+        case["fixed"] = {"c": _flt(base_c), "L": ident if rng.random() < 0.5 else _rand_L(rng, m, e2),
+                         "a": rng.uniform(0.3, 1.0)}
+        states = []
+        for sg in signs:
+            k = rng.uniform(4.0, 7.0)
+            c = np.array(base_c) + dirn * sg * k * C * e
+            states.append({"c": _flt(c), "L": ident if rng.random() < 0.5 else _rand_L(rng, m, e2),
+                           "a": rng.uniform(0.3, 1.0)})
+        muts = [rng.choice(ELL_MUTATORS) for _ in range(2)]
+        for i in (0, 1):
+            if muts[i] == "assign-center":
+                states[i + 1]["L"], states[i + 1]["a"] = states[i]["L"], states[i]["a"]
+        case["states"], case["mutators"] = states, muts
     return case
 
 
@@ -793,6 +937,12 @@ def _run_ell(ctx, case):
     E2 = EllipsoidalConfidenceRegion(m, c2.copy(), S2, a2)
     sv = _slack_vec(case)
     tau = _tau(W, c1, c2, a1 * L1, a2 * L2, sv)
+    if case.get("band") == "relative":
+        # tiny regions: every tolerance relative to the region size (an absolute band would swallow the region)
+        tau = TAU * max(float(np.max(np.abs(a1 * L1))), float(np.max(np.abs(a2 * L2)))) * \
+            max(1.0, float(np.max(np.linalg.norm(np.array(W, dtype=float), axis=1))))
+        ctx.count("ell_tiny_sigma_maxentry_1e%d" % int(math.floor(math.log10(max(float(np.max(np.abs(S1))),
+                                                                                   float(np.max(np.abs(S2))))))))
     out = _call_real(order, E1, E2, _slack_arg(case))
     tw = tau * TAU_SCS / TAU
     v5 = _ell_verdicts(ctx, case, tau, [tw, tau, 0.0, -tau, -tw])
@@ -806,6 +956,8 @@ def _run_ell(ctx, case):
     nt = _compare(ctx, case, out, *vs, "ell", wide=lambda: wide)
     if wide[0] == "1" or wide[2] == "0":
         ctx.count("ell_robust_beyond_solver_tolerance")
+        if case.get("band") == "relative":
+            ctx.count("ell_tiny_sigma_robust_beyond_solver_tolerance")
     ctx.case_done(case, nt, canon=["ell", W, case["c1"], case["L1"], a1, case["c2"], case["L2"], a2, sv])
 
 
@@ -924,11 +1076,122 @@ def _run_lp(ctx, case):
     ctx.case_done(case, False)
 
 
+def _hist_verdict(ctx, case, region, W, cur, sv):
+    """certified verdicts for the CURRENT attributes: (robust verdict or None, triple).  Rectangles: band
+    1e-6·scale; ellipsoids: the solver-tolerance band 1e-3·scale (the states are many region sizes apart)."""
+    if region == "rect":
+        (l1, u1), (l2, u2) = cur
+        tau = _tau(W, l1, u1, l2, u2, sv)
+        ans = ctx.ask("rect", core.qmat(W), core.qvec(l1), core.qvec(u1), core.qvec(l2), core.qvec(u2),
+                      core.qvec(sv), core.q(tau))
+        vs = ans.split(",")
+    else:
+        (c1, L1, a1), (c2, L2, a2) = cur
+        ec = {"W": W, "c1": _flt(c1), "L1": L1, "a1": a1, "c2": _flt(c2), "L2": L2, "a2": a2, "slack": case["slack"]}
+        tau = _tau(W, c1, c2, a1 * np.array(L1), a2 * np.array(L2), sv) * TAU_SCS / TAU
+        vs = _ell_verdicts(ctx, ec, tau)
+    if len(vs) != 3:
+        return None, vs
+    return ("1" if vs[0] == "1" else ("0" if vs[2] == "0" else None)), vs
+
+
+def _run_hist(ctx, case):
+    from vopy.confidence_region import EllipsoidalConfidenceRegion, RectangularConfidenceRegion
+
+    W = case["W"]
+    m = len(W[0])
+    order = real_order(W)
+    region, which = case["region"], case["which"]
+    sv = _slack_vec(case)
+    states, muts = case["states"], case["mutators"]
+    arr = lambda v: np.array(v, dtype=float)
+    if region == "rect":
+        fixed = RectangularConfidenceRegion(m, arr(case["fixed"]["l"]), arr(case["fixed"]["u"]))
+        mob = RectangularConfidenceRegion(m, arr(states[0]["l"]), arr(states[0]["u"]),
+                                          intersect_iteratively=bool(case.get("intersect_iteratively")))
+    else:
+        f = case["fixed"]
+        fixed = EllipsoidalConfidenceRegion(m, arr(f["c"]), arr(f["L"]) @ arr(f["L"]).T, float(f["a"]))
+        mob = EllipsoidalConfidenceRegion(m, arr(states[0]["c"]), arr(states[0]["L"]) @ arr(states[0]["L"]).T,
+                                          float(states[0]["a"]))
+    R1, R2 = (mob, fixed) if which == 1 else (fixed, mob)
+    curL = states[0].get("L")
+
+    def current():
+        if region == "rect":
+            return [(np.asarray(R.lower, dtype=float).copy(), np.asarray(R.upper, dtype=float).copy())
+                    for R in (R1, R2)]
+        Ls = (curL, case["fixed"]["L"]) if which == 1 else (case["fixed"]["L"], curL)
+        return [(np.asarray(R.center, dtype=float).copy(), Lx, float(R.alpha)) for R, Lx in zip((R1, R2), Ls)]
+
+    prev_robust = None
+    nontrivial = False
+    for step in range(len(states)):
+        if step > 0:
+            mu, st = muts[step - 1], states[step]
+            ctx.count(f"hist_{region}_mutator_{mu}")
+            if region == "rect":
+                L, U = arr(st["l"]), arr(st["u"])
+                if mu == "assign":
+                    mob.lower = L.copy()
+                    mob.upper = U.copy()
+                elif mu in ("intersect-disjoint", "intersect-overlap"):
+                    mob.intersect(L.copy(), U.copy())
+                else:  # update-replace / update-intersect (the constructor flag decides)
+                    mob.update((L + U) / 2, np.diag(((U - L) / 2) ** 2), np.array(1.0))
+            else:
+                c, Lm, a = arr(st["c"]), arr(st["L"]), float(st["a"])
+                if mu == "update":
+                    mob.update(c.copy(), Lm @ Lm.T, a)
+                    curL = st["L"]
+                elif mu == "assign":
+                    mob.center, mob.sigma, mob.alpha = c.copy(), Lm @ Lm.T, a
+                    curL = st["L"]
+                else:
+                    mob.center = c.copy()
+        cur = current()
+        if region == "ell":
+            ok = all(np.array_equal(np.asarray(R.sigma, dtype=float), arr(c_[1]) @ arr(c_[1]).T)
+                     for R, c_ in zip((R1, R2), cur))
+            if not ok:
+                ctx.count("hist_ell_sigma_untracked_skipped")
+                break
+        out = _call_real(order, R1, R2, _slack_arg(case))
+        robust, vs = _hist_verdict(ctx, case, region, W, cur, sv)
+        ctx.count(f"hist_{region}_step{step}_" + ("borderline" if robust is None else "robust"))
+        if out[0] != "ok":
+            ctx.violation(f"hist-{region}-crash:" + out[1], "is_covered raised on a valid region pair after a "
+                          "public mutation", case, kind="R", detail={"step": step, "out": out[:2]})
+            break
+        if robust is not None:
+            nontrivial = True
+            if step > 0 and prev_robust is not None and prev_robust != robust:
+                ctx.count(f"hist_{region}_verdict_flipped_by_mutation")
+            if out[1] != (robust == "1"):
+                mu = muts[step - 1] if step > 0 else "none"
+                detail = {"step": step, "code": out[1], "model_current": vs, "model_previous": prev_robust,
+                          "current_attributes": [[_flt(np.ravel(x)) if not isinstance(x, float) else x for x in c_]
+                                                 for c_ in cur], "solver_path": out[2]}
+                if step > 0 and prev_robust is not None and prev_robust != robust:
+                    ctx.violation(f"stale-region:{region}:{mu}", "after a public mutation of a region object "
+                                  "is_covered still answers for the region as it was before the mutation (wrong "
+                                  "for the current attributes, certified with margin)", case, kind="R",
+                                  detail=detail)
+                else:
+                    ctx.violation(f"hist-{region}-wrong:{mu}", "is_covered is wrong for the current attributes of "
+                                  "the region objects (certified with margin)", case, kind="R", detail=detail)
+        prev_robust = robust
+    ctx.case_done(case, nontrivial, canon=["hist", region, W, which, case["fixed"], states, muts, sv])
+
+
 def run_case(ctx, case):
     kind = case["kind"]
     ctx.count("kind_" + kind)
     if kind == "status":
         return _run_status(ctx, case)
+    if kind == "hist":
+        ctx.count("cone_" + case["cone"])
+        return _run_hist(ctx, case)
     if kind == "lp":
         return _run_lp(ctx, case)
     ctx.count(f"shape_{kind}_{case['shape']}")
